@@ -398,8 +398,9 @@ def m_require(W, state, ns, ver, lazy, dirs, depdirs, depth=0):
         cands = [(hit, ())] if hit else []
     else:
         cands, _ = find_latest(W, dirs, ns)
-    if not cands:
-        out.append((('err', 'not-found'), state, base, 0))
+    if not [c for c in cands if 'undecided:nonnumeric-version' not in c[1]]:
+        # nothing with a numeric version: not found (files with non-numeric versions, if any, are an open choice)
+        out.append((('err', 'not-found'), state, base + (('undecided:nonnumeric-version',) if cands else ()), 0))
     for (path, f), fl in cands:
         fl = base + fl
         if f['kind'] != 'typelib':
